@@ -13,9 +13,9 @@ for m in $MAP; do
   fi
   git reset -q   # keep the change in the working tree only
   if ! (GOFLAGS=-mod=mod GOPROXY=off GOSUMDB=off go build ./... ) >/dev/null 2>&1; then echo "$sha $prop DOES-NOT-BUILD"; git reset -q --hard HEAD; continue; fi
-  out=$(cd /verif && ./check $prop 2>&1); rc=$?
+  out=$(cd /verif && VERIF_SELFTEST_OUT=/tmp/selfcheck.out ./check $prop 2>&1); rc=$?   # outputs (bin, evidence, replays) kept away from /verif
   nv=$(echo "$out" | grep -c '^VIOLATION')
   echo "$sha $prop exit=$rc violations=$nv :: $(git log --format=%s -1 $sha | cut -c1-70)"
   git reset -q --hard HEAD
 done
-rm -rf /verif/replays
+rm -rf /verif/replays /tmp/selfcheck.out
